@@ -52,6 +52,11 @@ def budgeted(draw, base):
     case = draw(base)
     s = case["solver"]
     s["max_iter"] = draw(st.integers(1, 8))
+    if s["name"] == "FISTA":
+        # one FISTA iteration is one proximal-gradient step: stopping on tolerance needs hundreds of them; L1 has no
+        # prox_vec, so the `fixpoint` strategy is refused (C13's business) -- keep the strategy that runs
+        s["max_iter"] = draw(st.sampled_from([1, 3, 8, 50, 500, 3000]))
+        s["opt_strategy"] = "subdiff"
     if draw(st.booleans()):
         s["tol"] = draw(st.sampled_from([1e-1, 1e-2, 1e-3]))     # make early convergence frequent
     if "alpha" in case["penalty"] and case["penalty"]["name"] != "IndicatorBox" and draw(st.booleans()):
